@@ -1,5 +1,6 @@
 import UralModel.Props.C01
 import UralModel.Lemmas.CanonRoundTrip
+import UralModel.Lemmas.BracketHost
 /-!
 # C01, the delimiter clause on the whole string — the parser is inside the model
 
@@ -10,18 +11,22 @@ returned.  Here the parser itself is the model (`Py.urlsplit` + the `SplitResult
 
 * `urlsplit_urlunsplit` — the parser inverts the printer on well-formed 5-tuples (`WF`);
 * `accessors_unsplitNetloc` — the accessors invert `unsplit_netloc`;
+* `canonicalize_accepts_iff` — `canonicalize_url` returns exactly when the cleaned string
+  parses and its userinfo holds no bracket (`Accepted`; `ValueError` otherwise), and then
+  prints `canonParts` of the parse;
 * `canonParts_wf` — what `canonicalize_url` hands to the printer is well-formed;
 * `canonicalize_reparse` — the parse of the OUTPUT STRING is the components `canonComps`
-  computed (`reparsed`), hence (`canonicalize_same_resource`) every per-component theorem of
-  `Props/C01.lean` is a statement about the re-parsed output.
+  computed (`reparsedOf`), hence (`canonicalize_same_resource`) every per-component theorem
+  of `Props/C01.lean` is a statement about the re-parsed output.
 
 Side conditions, all explicit: the default protocol is scheme-shaped (so that the cleaned
-string has a scheme: `https`, `http`, `ftp`, `wss:` …); the decoder `puny` invents no
-delimiter (`PunyClean`, tested on the real codec on every run); and brackets occur only
-around an IP literal that is still one after the host rule (`NoOddBracket`, `hbr`) — outside
-that region the statement is FALSE for the implementation too (KF-C01-1, KF-C01-2), see
-`reparse_fails_outside`.  For netlocs without any bracket no side condition is left
-(`canonicalize_reparse`).
+string has a scheme: `https`, `http`, `ftp`, `wss:` …) and the decoder `puny` invents no
+delimiter and empties no label (`PunyClean`, tested on the real codec on every run).  No
+hypothesis on brackets is left: the two regions the former `canonicalize_reparse_partial`
+excluded (`NoOddBracket`, `hbr`) were defects of the implementation (KF-C01-1, KF-C01-2), now
+fixed (FX-C01-ca9f3e6: a bracket in the userinfo is rejected; FX-C01-feb1ed1: a
+bracketed host keeps its brackets), and that the canonical host of an ip literal still
+passes the bracket check is proved (`Lemmas/BracketHost.lean`).
 -/
 namespace Ural.Props.C01
 open Ural Ural.Py Ural.UrlParts Ural.Quote Ural.Canonicalize Ural.UrlRoundTrip Ural.CanonRoundTrip
@@ -128,87 +133,94 @@ def DefaultProtocolOk (dp : Str) : Prop := SchemeShaped (rstripChars dp [':', '/
 theorem defaultProtocolOk_https : DefaultProtocolOk "https".toList :=
   ⟨⟨'h', "ttps".toList, by decide +kernel, by decide +kernel⟩, by decide +kernel⟩
 
-/-- **`canonParts` is well-formed**: for every input string, default protocol, option setting
-and decoder, the 5-tuple handed to `urlunsplit` satisfies every hypothesis of the round trip
-— as soon as the bracket check passes on the new netloc -/
+/-- what `canonicalize_url` accepts (everything else raises `ValueError`): the cleaned string
+parses — `urlsplit` and the accessors — to `p`, and the userinfo of `p` holds no bracket
+(FX-C01-ca9f3e6).  Decidable: `parseUrl` and `userinfoBrackets` are computable. -/
+def Accepted (u dp : Str) (p : Parsed) : Prop :=
+  parseUrl (Canonicalize.cleanUrl u dp) = some p ∧ userinfoBrackets p.netloc = false
+
+/-- `canonicalize_url` returns exactly on the accepted strings, and then prints
+`canonParts` of the parse -/
+theorem canonicalize_accepts_iff (puny : Str → Str) (o : Opts) (u s : Str) :
+    canonicalizeUrl puny o u = some s ↔
+      ∃ p, Accepted u o.defaultProtocol p ∧
+        s = printSplit (canonParts puny o.quoted o.stripFragment p) := by
+  unfold canonicalizeUrl canonicalizeSplit canonSplit Accepted
+  cases hp : parseUrl (Canonicalize.cleanUrl u o.defaultProtocol) with
+  | none => simp
+  | some p =>
+    by_cases hb : userinfoBrackets p.netloc = true
+    · simp [hb]
+    · simp only [Option.bind_some, hb, Bool.false_eq_true, if_false, Option.map_some,
+        Option.some.injEq]
+      constructor
+      · intro e; exact ⟨p, ⟨rfl, by simpa using hb⟩, e.symm⟩
+      · rintro ⟨p', ⟨e, _⟩, rfl⟩; cases e; rfl
+
+/-- **`canonParts` is well-formed**: for every input string `canonicalize_url` accepts, every
+default protocol, option setting and decoder, the 5-tuple handed to the printer satisfies
+every hypothesis of the parser/printer round trip (the bracket check on the new netloc
+included: `Lemmas/BracketHost.lean`) -/
 theorem canonParts_wf (puny : Str → Str) (hpc : PunyClean puny) (quoted sf : Bool)
-    (u dp : Str) (hdp : DefaultProtocolOk dp) (p : Parsed)
-    (hp : parseUrl (Canonicalize.cleanUrl u dp) = some p)
-    (hok : netlocOk (canonParts puny quoted sf p).netloc = true) :
+    (u dp : Str) (hdp : DefaultProtocolOk dp) (p : Parsed) (ha : Accepted u dp p) :
     WF (canonParts puny quoted sf p).scheme (canonParts puny quoted sf p).netloc
       (canonParts puny quoted sf p).path (canonParts puny quoted sf p).query
       ((canonParts puny quoted sf p).fragment.getD []) := by
   obtain ⟨S, rest, hcl, _⟩ := cleanUrl_cleaned u dp hdp
-  exact CanonRoundTrip.canonParts_wf hpc quoted sf (fromParse hcl hp) hok
-
-/-- … which it always does when the parsed netloc holds no bracket -/
-theorem canonParts_wf_no_bracket (puny : Str → Str) (hpc : PunyClean puny) (quoted sf : Bool)
-    (u dp : Str) (hdp : DefaultProtocolOk dp) (p : Parsed)
-    (hp : parseUrl (Canonicalize.cleanUrl u dp) = some p)
-    (hb : '[' ∉ p.netloc ∧ ']' ∉ p.netloc) :
-    WF (canonParts puny quoted sf p).scheme (canonParts puny quoted sf p).netloc
-      (canonParts puny quoted sf p).path (canonParts puny quoted sf p).query
-      ((canonParts puny quoted sf p).fragment.getD []) := by
-  obtain ⟨S, rest, hcl, _⟩ := cleanUrl_cleaned u dp hdp
-  have hf := fromParse hcl hp
-  obtain ⟨hnb, hcol⟩ := side_conditions_of_no_bracket hpc quoted sf hf hb
+  have hf := fromParse hcl ha.1
   exact CanonRoundTrip.canonParts_wf hpc quoted sf hf
-    (netlocOk_new hpc quoted sf hf hnb (fun h => absurd h hcol))
+    (netlocOk_new hpc quoted sf hf ha.2 (BracketHost.hbr_holds hpc quoted sf hf ha.2))
 
-/-- the full delimiter clause: the output of the whole-string function parses, and its parse
-is the components `canonComps` computed -/
-def FullReparse : Prop :=
-  ∀ (puny : Str → Str), PunyClean puny → ∀ (o : Opts), DefaultProtocolOk o.defaultProtocol →
-    ∀ (u : Str) (p : Parsed), parseUrl (Canonicalize.cleanUrl u o.defaultProtocol) = some p →
-      ∃ s, canonicalizeUrl puny o u = some s ∧
-        parseUrl s = some (reparsed (canonComps puny o.quoted o.stripFragment p))
-
-/-- **delimiter clause of C01 on the output string** (`_partial`: brackets only around an IP
-literal that the host rule leaves acceptable): `parseUrl (canonicalizeUrl u) = some p'` with
-`p'` the components computed by `canonComps` -/
-theorem canonicalize_reparse_partial (puny : Str → Str) (hpc : PunyClean puny) (o : Opts)
-    (hdp : DefaultProtocolOk o.defaultProtocol) (u : Str) (p : Parsed)
-    (hp : parseUrl (Canonicalize.cleanUrl u o.defaultProtocol) = some p)
-    (hnb : NoOddBracket p)
-    (hbr : ':' ∈ strOf (canonComps puny o.quoted o.stripFragment p).host →
-      bracketedHostOk (strOf (canonComps puny o.quoted o.stripFragment p).host) = true) :
-    ∃ s, canonicalizeUrl puny o u = some s ∧
-      parseUrl s = some (reparsed (canonComps puny o.quoted o.stripFragment p)) := by
-  obtain ⟨S, rest, hcl, _⟩ := cleanUrl_cleaned u o.defaultProtocol hdp
-  refine ⟨urlunsplit (canonParts puny o.quoted o.stripFragment p), ?_, ?_⟩
-  · simp [canonicalizeUrl, canonicalizeSplit, hp]
-  · exact parseUrl_printed hpc o.quoted o.stripFragment (fromParse hcl hp) hnb hbr
-
-/-- the same without side condition for every URL whose netloc holds no bracket (registered
-names, IPv4 hosts, any userinfo and port) -/
+/-- **delimiter clause of C01 on the output string, full**: for every string
+`canonicalize_url` accepts — every netloc the parser accepts whose userinfo holds no bracket:
+registered names, IPv4, IPv6 and IPvFuture literals, zone ids, any userinfo and port — the
+output parses, and its parse is the components `canonComps` computed
+(`reparsedOf` = those components behind the printed netloc) -/
 theorem canonicalize_reparse (puny : Str → Str) (hpc : PunyClean puny) (o : Opts)
     (hdp : DefaultProtocolOk o.defaultProtocol) (u : Str) (p : Parsed)
-    (hp : parseUrl (Canonicalize.cleanUrl u o.defaultProtocol) = some p)
-    (hb : '[' ∉ p.netloc ∧ ']' ∉ p.netloc) :
+    (ha : Accepted u o.defaultProtocol p) :
     ∃ s, canonicalizeUrl puny o u = some s ∧
-      parseUrl s = some (reparsed (canonComps puny o.quoted o.stripFragment p)) := by
+      parseUrl s = some (reparsedOf puny o.quoted o.stripFragment p) := by
   obtain ⟨S, rest, hcl, _⟩ := cleanUrl_cleaned u o.defaultProtocol hdp
-  obtain ⟨hnb, hcol⟩ :=
-    side_conditions_of_no_bracket hpc o.quoted o.stripFragment (fromParse hcl hp) hb
-  exact canonicalize_reparse_partial puny hpc o hdp u p hp hnb (fun h => absurd h hcol)
+  have hf := fromParse hcl ha.1
+  refine ⟨printSplit (canonParts puny o.quoted o.stripFragment p),
+    (canonicalize_accepts_iff puny o u _).2 ⟨p, ha, rfl⟩, ?_⟩
+  exact parseUrl_printed hpc o.quoted o.stripFragment hf ha.2
+    (BracketHost.hbr_holds hpc o.quoted o.stripFragment hf ha.2)
 
-/-- the excluded region really fails (KF-C01-1: a raw bracket in the userinfo): the printed
-result of `http://u[::1%7A]@a.com/` does not parse -/
-theorem reparse_fails_outside : ¬ FullReparse := by
-  intro h
-  have hsome : (parseUrl (Canonicalize.cleanUrl "http://u[::1%7A]@a.com/".toList "https".toList)).isSome = true := by
-    decide +kernel
-  obtain ⟨p, hp⟩ := Option.isSome_iff_exists.1 hsome
-  obtain ⟨s, hs, hps⟩ := h id punyClean_id ⟨"https".toList, false, false⟩ defaultProtocolOk_https
-    "http://u[::1%7A]@a.com/".toList p hp
-  have hnone : ((canonicalizeUrl id ⟨"https".toList, false, false⟩
-      "http://u[::1%7A]@a.com/".toList).bind parseUrl).isSome = false := by
-    decide +kernel
-  rw [hs] at hnone
-  simp [hps] at hnone
+/-- the same, read from the result: whatever `canonicalize_url` returns parses, to the
+components computed from the parse of the cleaned input -/
+theorem canonicalize_reparse_of_some (puny : Str → Str) (hpc : PunyClean puny) (o : Opts)
+    (hdp : DefaultProtocolOk o.defaultProtocol) (u s : Str)
+    (hs : canonicalizeUrl puny o u = some s) :
+    ∃ p, Accepted u o.defaultProtocol p ∧
+      parseUrl s = some (reparsedOf puny o.quoted o.stripFragment p) := by
+  obtain ⟨p, ha, rfl⟩ := (canonicalize_accepts_iff puny o u s).1 hs
+  obtain ⟨s', hs', hp'⟩ := canonicalize_reparse puny hpc o hdp u p ha
+  rw [(canonicalize_accepts_iff puny o u _).2 ⟨p, ha, rfl⟩] at hs'
+  cases hs'
+  exact ⟨p, ha, hp'⟩
 
-/-- non-vacuity of the partial theorem inside the bracket region: an IPv6 URL with userinfo,
-upper-case hex, default port, dot segments, query and fragment -/
+/-- the former witnesses of KF-C01-1 / KF-C01-2 behave: a bracket in the userinfo is rejected
+(the cleaned string does parse); an IPvFuture literal holding `[`, also behind junk, keeps
+its brackets and is read back with the same host -/
+example :
+    (parseUrl (Canonicalize.cleanUrl "http://u[::1%7A]@a.com/".toList "https".toList)).isSome = true ∧
+    canonicalizeUrl id ⟨"https".toList, false, false⟩ "http://u[::1%7A]@a.com/".toList = none ∧
+    canonicalizeUrl id ⟨"https".toList, true, false⟩ "HTTP://u[::1]@[::1 ]#f".toList = none ∧
+    canonicalizeUrl id ⟨"https".toList, false, false⟩ "http://[v1.[]/".toList =
+      some "http://[v1.[]".toList ∧
+    canonicalizeUrl id ⟨"https".toList, false, false⟩ "http://x[v1.[]/".toList =
+      some "http://[v1.[]".toList ∧
+    ((canonicalizeUrl id ⟨"https".toList, false, false⟩ "http://x[v1.[]/".toList).bind parseUrl).map
+        (fun p => p.hostname) = some (some "v1.[".toList) ∧
+    canonicalizeUrl id ⟨"https".toList, false, false⟩ "http://[V1.X]:80/p".toList = none ∧
+    canonicalizeUrl id ⟨"https".toList, false, false⟩ "http://[v1.X]:80/p".toList =
+      some "http://[v1.x]/p".toList := by
+  decide +kernel
+
+/-- non-vacuity inside the bracket region: an IPv6 URL with userinfo, upper-case hex, default
+port, dot segments, query and fragment -/
 example :
     (canonicalizeUrl id ⟨"https".toList, false, false⟩
         " HTTP://%41:p%40@[2001:DB8::1]:80/a/../b%2Fc/?k=%26#f ".toList =
@@ -243,25 +255,22 @@ decoded query items, decoded fragment (unless stripped).  This is `Props/C01.lea
 through the printer and the parser by `canonicalize_reparse_partial`. -/
 theorem canonicalize_same_resource (puny : Str → Str) (hpl : PunyLaws puny) (hpc : PunyClean puny)
     (o : Opts) (hdp : DefaultProtocolOk o.defaultProtocol) (u : Str) (p : Parsed)
-    (hp : parseUrl (Canonicalize.cleanUrl u o.defaultProtocol) = some p)
-    (hnb : NoOddBracket p)
-    (hbr : ':' ∈ strOf (canonComps puny o.quoted o.stripFragment p).host →
-      bracketedHostOk (strOf (canonComps puny o.quoted o.stripFragment p).host) = true) :
+    (ha : Accepted u o.defaultProtocol p) :
     ∃ s p', canonicalizeUrl puny o u = some s ∧ parseUrl s = some p' ∧
       p'.scheme = p.scheme ∧
       optPct p'.username = optPct p.username ∧ optPct p'.password = optPct p.password ∧
       canonHost puny (p'.hostname.getD []) = canonHost puny (p.hostname.getD []) ∧
       effPort p.scheme p'.port = effPort p.scheme p.port ∧
       (∃ cp, pathView p'.path = pathView cp ∧
-        cp = canonPath p.path (!p.query.isEmpty || truthy (if o.stripFragment then none else some p.fragment)) ∧
+        cp = canonPath p.path (hasMore puny o.stripFragment p) ∧
         pathView (unquotePath p.path) = pathView p.path) ∧
       (safeQslIter p'.query).map pctItem = (safeQslIter p.query).map pctItem ∧
       (o.stripFragment = false → pctStr p'.fragment = pctStr p.fragment) ∧
       (o.stripFragment = true → p'.fragment = []) := by
-  obtain ⟨s, hs, hps⟩ := canonicalize_reparse_partial puny hpc o hdp u p hp hnb hbr
+  obtain ⟨s, hs, hps⟩ := canonicalize_reparse puny hpc o hdp u p ha
   refine ⟨s, _, hs, hps, rfl, ?_, ?_, ?_, ?_, ?_, ?_, ?_, ?_⟩
   · have := (canon_userinfo puny o.quoted o.stripFragment p).1
-    simp only [reparsed, optPct] at this ⊢
+    simp only [reparsedOf, reparsed, optPct] at this ⊢
     rw [← this]
     split
     · simp [strOf_eq_getD]
@@ -269,7 +278,7 @@ theorem canonicalize_same_resource (puny : Str → Str) (hpl : PunyLaws puny) (h
       simp only [not_or, Classical.not_not] at hn
       simp [← strOf_eq_getD, hn.2]
   · have := (canon_userinfo puny o.quoted o.stripFragment p).2
-    simp only [reparsed, optPct] at this ⊢
+    simp only [reparsedOf, reparsed, optPct] at this ⊢
     rw [← this]
     split
     · simp [strOf_eq_getD]
@@ -277,9 +286,9 @@ theorem canonicalize_same_resource (puny : Str → Str) (hpl : PunyLaws puny) (h
       simp only [Classical.not_not] at hn
       simp [← strOf_eq_getD, hn]
   · have := canon_host puny hpl o.quoted o.stripFragment p
-    have e : (reparsed (canonComps puny o.quoted o.stripFragment p)).hostname.getD [] =
+    have e : (reparsedOf puny o.quoted o.stripFragment p).hostname.getD [] =
         (canonComps puny o.quoted o.stripFragment p).host.getD [] := by
-      simp only [reparsed]
+      simp only [reparsedOf, reparsed]
       split
       · rename_i h0; simp [← strOf_eq_getD, h0]
       · simp [strOf_eq_getD]
@@ -292,6 +301,6 @@ theorem canonicalize_same_resource (puny : Str → Str) (hpl : PunyLaws puny) (h
     rw [hsf]; exact this
   · intro hsf
     have := (canon_fragment puny o.quoted p).2
-    simp only [reparsed, hsf, this, Option.getD_none]
+    simp only [reparsedOf, reparsed, hsf, this, Option.getD_none]
 
 end Ural.Props.C01
